@@ -44,6 +44,7 @@ type Spec struct {
 	RefFile        string   // with Ref: the definition lives in this other file (a cross-file reference "<file>#/$defs/<name>")
 	built          *builder
 	refStr         *absint.Str
+	NoType         bool   // the node states no "type" (an object with properties only)
 	IntBounds      bool   // the numeric bounds are integers (fact on their atoms)
 	DefSameAs      string // with Ref: the definition has the same NAME as the (earlier built) definition with this label (possibly in another file)
 	DefLabel       string // label under which this definition's name can be reused
@@ -242,7 +243,7 @@ func (b *builder) defName(s *Spec, label string) *absint.Atom {
 
 func (b *builder) typeList(s *Spec) gen.V {
 	k := s.Kind
-	if k == "any" {
+	if k == "any" || s.NoType {
 		return nil
 	}
 	switch s.Null {
